@@ -1221,7 +1221,7 @@ func ruleR03_11(w *World, r *Report) {
 		return
 	}
 	n := 0
-	forEachOwnInstr(fn, func(in ssa.Instruction) {
+	forEachInstr(fn, func(in ssa.Instruction) {
 		sl, ok := in.(*ssa.Slice)
 		if !ok || sl.Low == nil || sl.High == nil {
 			return
@@ -1268,7 +1268,9 @@ func ruleR03_12(w *World, r *Report) {
 				return
 			}
 			for _, v := range resolvePhisOwn(ret.Results[idx]) {
-				if c, isC := v.(*ssa.Const); isC && c.Value == nil {
+				// (a nil written out in a new helper stands for a local that was nil in the caller before the helper
+				// was extracted: what counts there is a nil handed on from a function of the reviewed tree)
+				if c, isC := v.(*ssa.Const); isC && c.Value == nil && !(depth == 0 && flattenable[f]) {
 					found = true
 				}
 				// a result handed on from another orda function
@@ -1386,24 +1388,23 @@ func ruleR13_6(w *World, r *Report) {
 func ruleR09_9(w *World, r *Report) {
 	u := w.Client()
 	r.Rule("R09.9", "the error of ExecuteRemote is not discarded where received operations are applied: a member of a transaction unit that cannot be executed must be able to fail the unit", 1)
-	fn := u.Fn(pDatatypes, "BaseDatatype", "executeRemoteBase")
-	if fn == nil {
-		r.Lost("BaseDatatype.executeRemoteBase")
-		return
-	}
+	// wherever the datatype layer applies a received operation (executeRemoteBase in the reviewed tree; its callers
+	// when that small function is inlined)
 	n := 0
-	for _, c := range callsNamed(fn, "ExecuteRemote") {
-		call, ok := c.(*ssa.Call)
-		if !ok {
-			continue
+	for _, fn := range u.ordaFuncs(func(p string) bool { return p == pDatatypes }) {
+		for _, c := range ownCallsIn(fn) {
+			call, ok := c.(*ssa.Call)
+			if !ok || !call.Call.IsInvoke() || calleeName(call) != "ExecuteRemote" {
+				continue
+			}
+			n++
+			ev := errResult(call)
+			used := ev != nil && len(realRefs(ev)) > 0
+			r.Check(used, "remote apply/error of ExecuteRemote", u.Pos(c.Pos()), "the error is consumed", "the error of ExecuteRemote is discarded: an operation of a received transaction unit that cannot be executed is skipped silently and the rest of the unit is applied (neither all nor none)")
 		}
-		n++
-		ev := errResult(call)
-		used := ev != nil && len(realRefs(ev)) > 0
-		r.Check(used, "BaseDatatype.executeRemoteBase/error of ExecuteRemote", u.Pos(c.Pos()), "the error is consumed", "the error of ExecuteRemote is discarded: an operation of a received transaction unit that cannot be executed is skipped silently and the rest of the unit is applied (neither all nor none)")
 	}
 	if n == 0 {
-		r.Lost("executeRemoteBase: ExecuteRemote")
+		r.Lost("the datatype layer: ExecuteRemote")
 	}
 }
 
